@@ -215,6 +215,8 @@ def _apply_step(rng, srf, gen, dim, state):
         ops += ["period", "period"]
     if gen == "RandMeth":
         ops += ["sampling"]
+    if gen != "Fourier":
+        ops += ["reset_seed_kept", "mode_no_down"]
     op = str(rng.choice(ops))
     if op == "var":
         state["old"] = ("var", model.var)
@@ -251,6 +253,16 @@ def _apply_step(rng, srf, gen, dim, state):
         k, v = state["old"]
         setattr(model, k, v)
         op = f"restore({k})"
+    elif op == "reset_seed_kept":
+        # documented: reset_seed() / reset_seed(np.nan) recalculates the random values with the present seed
+        if rng.random() < 0.5:
+            srf.generator.reset_seed()
+        else:
+            srf.generator.reset_seed(np.nan)
+    elif op == "mode_no_down":
+        # a smaller number of modes on a live generator (from above 100, where the length of MCMC chains depends on it)
+        srf.generator.mode_no = int(rng.choice([130, 160]))
+        srf.generator.mode_no = int(rng.choice([101, 110, 120]))
     elif op == "mode_no":
         if gen == "Fourier":
             state["mode_no"] = [int(v) for v in rng.choice([4, 6, 8], size=dim)]
